@@ -389,6 +389,8 @@ def container_ops(self_move=False, node_forms=True):
         st.sampled_from(["attach", "attach", "attach", "detach", "set", "setattr"])))
     bnd = st.one_of(bnd, bnd, bnd, nopatch, nopatch, st.just(("detach_all",)), st.tuples(st.just("del_root"), cref),
                     st.tuples(st.just("copy_root"), fresh, st.booleans()),
+                    st.integers(0, len(POOL) - 1).flatmap(lambda i: st.tuples(
+                        st.just("stale"), ctgt, st.just(i), G.model_recipe(pool_class(i)[3], 1, dates="date", objects=False))),
                     st.tuples(st.just("set_node"), cref, fresh, st.sampled_from(["node", "raw", "dtype"])))
     # a patch that consists of exactly one small change (between two boundaries)
     one = st.one_of(st.tuples(st.just("setattr"), st.just("/"), st.sampled_from(["k", "u"]), cvalue),
@@ -699,6 +701,40 @@ class CSession:
             self.step(list(op[2]))
             self.step([op[3]])
             self.classes.add("single_change_patch")
+            return
+        elif kind == "stale":
+            # a metadata handle taken earlier must not act on an outdated picture of the node: attach through a fresh
+            # handle, then attach the same schema / look the object up / remove it through the old handle
+            _, tgt, pi, recipe = op
+            path = self._node_target(tgt)
+            key, name, ver, cls = pool_class(pi)
+            if tree.lookup(path) is None or name in m.meta.get(path, {}):
+                return
+            try:
+                old = [self._node(t.mc, path).meta for t in self.targets]
+            except Exception:  # noqa: BLE001
+                return
+            self.step(["attach", path, pi, "class", recipe, False])
+            if name not in self.model.meta.get(path, {}):
+                return  # (the object was not valid)
+
+            def fm(model):
+                raise OpFails("duplicate")
+
+            self.run_all(lambda ti, t: old[ti].__setitem__(cls, G.realize(recipe)), fm, "attach:stale-handle", dict(path=path, schema=name))
+            if self.after_step:
+                self.after_step(self, ["attach"])
+            self.step(["detach", path, 0, False]) if sorted(self.model.meta.get(path, {}))[0] == name else None
+            if name not in self.model.meta.get(path, {}):
+                for ti, t in enumerate(self.targets):
+                    try:
+                        still = name in list(old[ti].keys())  # (explicitly attached objects only)
+                    except Exception:  # noqa: BLE001
+                        still = False
+                    if still:
+                        raise Violation(f"{self.sig}:deleted-object-still-returned:stale-handle", f"step {self.pos}: {name} at {path} on "
+                                        f"{t.driver}: a handle taken before still reports the object after it was deleted", "gone")
+            self.classes.add("stale_meta_handle")
             return
         elif kind == "copy_root":
             # the whole container copied into a new group of itself (snapshot of the user tree and its metadata)
